@@ -463,7 +463,7 @@ def run_verus(path, rlimit=None, threads=None, timeout=1800):
     try:
         for mod in summary['times-ms']['smt']['smt-run-module-times']:
             for f in mod.get('function-breakdown', []):
-                fn_times.append(dict(function=f['function'], mode=f.get('mode:', f.get('mode')), ms=f['time-micros'] / 1000.0,
+                fn_times.append(dict(function=re.sub(r'^(\w+?)_[0-9a-f]{20}::', r'\1::', f['function']), mode=f.get('mode:', f.get('mode')), ms=f['time-micros'] / 1000.0,
                                      rlimit=f.get('rlimit'), success=f['success']))
     except Exception:
         pass
@@ -585,10 +585,31 @@ def build_and_verify(unit, root, canary=False, rlimit=None, keep_name=None):
     text = '\n'.join(gen.lines) + '\n'
     h = hashlib.sha256(text.encode()).hexdigest()[:20]
     name = keep_name or ('%s%s' % (unit.name, '_canary' if canary else ''))
-    path = os.path.join(BUILD, name + '.rs')
+    # the file Verus reads is private to this generated text (name + hash), written atomically: concurrent checks of different trees
+    # (seed sweeps, mutant sweeps, several properties at once) can never verify each other's text; build/<name>.rs is a copy for reading
+    os.makedirs(os.path.join(BUILD, 'gen'), exist_ok=True)
+    try:        # prune generated files that have not been used for a while (they are re-created on demand)
+        now = time.time()
+        for fn_ in os.listdir(os.path.join(BUILD, 'gen')):
+            fp_ = os.path.join(BUILD, 'gen', fn_)
+            if now - os.path.getmtime(fp_) > 6 * 3600:
+                os.remove(fp_)
+    except OSError:
+        pass
+    path = os.path.join(BUILD, 'gen', '%s-%s.rs' % (name, h))
     cache = os.path.join(BUILD, 'cache', '%s-%s-%s.json' % (name, h, rlimit or 'd'))
-    with open(path, 'w') as f:
-        f.write(text)
+    if not os.path.exists(path):
+        tmpf = path + '.%d.tmp' % os.getpid()
+        with open(tmpf, 'w') as f:
+            f.write(text)
+        os.replace(tmpf, path)
+    try:
+        tmpf = os.path.join(BUILD, name + '.rs.%d.tmp' % os.getpid())
+        with open(tmpf, 'w') as f:
+            f.write(text)
+        os.replace(tmpf, os.path.join(BUILD, name + '.rs'))
+    except OSError:
+        pass
     if os.path.exists(cache) and not os.environ.get('VERIF_NOCACHE'):
         try:
             res = json.load(open(cache))
